@@ -260,6 +260,9 @@ class S3LockWorld(World):
 
     def _after(self, req: Any, res: Any) -> None:
         if req.key == self.KEY and req.op == "DELETE" and not isinstance(res, BaseException):
+            if self.lock_writer is not None and self.lock_writer != root_actor(req.actor):
+                # a release removed a lock object that somebody else had written in the meantime
+                self.foreign_deletes.append((root_actor(req.actor), self.lock_writer))
             self.lock_writer = None
         if req.op == "PUT" and req.key == self.KEY and not isinstance(res, BaseException):
             prev = self._prev.get(req.idx)
@@ -283,6 +286,7 @@ class S3LockWorld(World):
         self.cs = CS()
         self.truth, self.server, self._prev = [], [], {}
         self.release_fault_fired = False
+        self.foreign_deletes = []
         self.lock_writer = None
         self.locks = [S3LockProvider(self.fake, "bkt", self.KEY, timeout=self.cfg.get("timeout", 30.0))
                       for _ in self.cfg["modes"]]
@@ -386,8 +390,10 @@ class S3LockWorld(World):
         self.outcomes[okey] = self.outcomes.get(okey, 0) + 1
         self.rep.nontrivial((self.cfg["id"], okey))
         if problems:
-            self.rep.violation({"lock": "s3", "scenario": self.cfg["id"], "problem": problems[0].split(":")[0][:70]},
+            self.rep.violation({"lock": "s3", "scenario": self.cfg["id"], "problem": problems[0].split(":")[0][:70],
+                                "a_release_deleted_somebody_elses_lock_object": bool(self.foreign_deletes)},
                                {"config": self.cfg, "choices": ex.choices, "schedule": ex.trace, "problems": problems,
+                                "foreign_deletes": self.foreign_deletes,
                                 "shared_keys": sorted(ex.ex.shared_keys), "shared_prefixes": sorted(ex.ex.shared_prefixes)})
 
 
